@@ -3,6 +3,7 @@
   `lake exe driver < ops.txt > model.txt`. Core Lean only (no Mathlib), so it links.
 -/
 import Logg.Drive.C01
+import Logg.Drive.C02
 import Logg.Drive.C03
 import Logg.Drive.C07
 import Logg.Drive.C10
@@ -32,6 +33,7 @@ structure DriverState where
 def dispatch (st : DriverState) (line : String) : DriverState × String :=
   match (line.splitOn " ").filter (· ≠ "") with
   | "C01" :: rest => let (s, o) := Drive.C01.step st.c01 rest; ({ st with c01 := s }, o)
+  | "C02" :: rest => (st, Drive.C02.step st.c17 rest)
   | "C03" :: rest => let (s, o) := Drive.C03.step st.c03 rest; ({ st with c03 := s }, o)
   | "C13" :: rest => let (s, o) := Drive.C03.step st.c13 rest; ({ st with c13 := s }, o)
   | "C07" :: rest => (st, Drive.C07.step rest)
